@@ -62,7 +62,7 @@ func c13Valid(c c13Case) bool {
 		// while a lookup is pending the other calls legitimately keep the batch waiting -
 		// unless every call of the batch carries the context that ends
 		switch c.State {
-		case "zk", "meta", "probe", "dialrefused", "backoff", "busy":
+		case "zk", "meta", "probe", "dialrefused", "backoff", "busy", "nsremeta":
 			if !c.AllOwn {
 				return false
 			}
@@ -265,6 +265,24 @@ func c13RunInBubble(c c13Case) (out Outcome) {
 		cl.SetServer(mine, func(s *sim.ServerState) { s.Down = true })
 		cl.KillConns(mine)
 	}
+	// nsremeta: the regions are known and connected; they answer the next request with NotServingRegion
+	// (they are closing), and hbase:meta does not answer the lookup of their re-establishment: the regions
+	// are unavailable while they still hold their (healthy) connection
+	if c.State == "nsremeta" {
+		for _, k := range []string{"a", "z"} {
+			g, _ := hrpc.NewGet(context.Background(), []byte("t"), []byte(k), hrpc.Families(markerFam("mkwarm"+k)))
+			if _, err := client.Get(g); err != nil {
+				teardown()
+				return viol("harness", "warm-up get failed: %v", err)
+			}
+		}
+		cl.Lock()
+		cl.MetaHold = true
+		for _, r := range cl.Regions {
+			r.Transient = append(r.Transient, sim.Exc{Class: sim.NSRE, Stack: sim.NSRE + ": closing"})
+		}
+		cl.Unlock()
+	}
 	// busy: stall the table's server after the probe and fill the pipe
 	fillers := 0
 	if c.State == "busy" {
@@ -431,6 +449,14 @@ func c13RunInBubble(c c13Case) (out Outcome) {
 			}
 		case "busy":
 			return true
+		case "nsremeta":
+			n := 0
+			for _, e := range execs {
+				if e.Method == "MetaScanArrived" {
+					n++
+				}
+			}
+			return n > 2 // (two from the warm-up)
 		case "manydown":
 			n := 0
 			for _, e := range execs {
@@ -590,7 +616,7 @@ func stringIndex(s, sub string) int {
 	return -1
 }
 
-var c13States = []string{"zk", "meta", "probe", "dialrefused", "backoff", "busy", "silent", "held", "manydown", "otherdial"}
+var c13States = []string{"zk", "meta", "probe", "dialrefused", "backoff", "busy", "silent", "held", "manydown", "otherdial", "nsremeta"}
 
 func c13Fill(t *rapid.T, c *c13Case) {
 	c.N = rapid.IntRange(1, 8).Draw(t, "n")
